@@ -35,7 +35,8 @@ JOBS = [
     dict(COMMON, name="hash.update.grid", files=["harness/h_hash.c", "stubs/hmon.c", "stubs/mem.c", HASH], defs=["WHICH=0", "TJV_ALIGN"],
          functions=[FN], allow_no_body=["tinyjambu_clean"],
          grid=[{"label": "p%d_n%d" % (p, n), "defs": ["TJV_POSN=%d" % p, "TJV_LEN=%d" % n]}
-               for p in (0, 1, 5, 15) for n in (0, 1, 10, 11, 12, 15, 16, 17, 27, 33, 48)],
+               for p in (0, 1, 5, 15) for n in (0, 1, 10, 11, 12, 15, 16, 17, 27, 33, 48)]
+              + [{"label": "p%d_null" % p, "defs": ["TJV_POSN=%d" % p, "TJV_LEN=0", "TJV_NULLIN"]} for p in (0, 7)],
          unwind=50, cost=60, mem_share=0.3, timeout=90,
          bounded="posn in {0,1,5,15} x inlen in {0,1,10,11,12,15,16,17,27,33,48}, input at every alignment 0..3, arbitrary L, R, buffered bytes and data (loops unwound)"),
     dict(COMMON, name="hash.oneshot.grid", files=["harness/h_hash.c", "stubs/hmon.c", "stubs/mem.c", HASH, CLEAN_SRC], defs=["WHICH=4", "TJV_ALIGN"],
